@@ -246,6 +246,7 @@ type Plan struct {
 	FailMethod string // if set, fail the FailNth-th call of this method only
 	FailErr    error  // error to return (default ErrInjected)
 	CrashAfter int    // snapshot the state after the n-th *write* call; 0 = off
+	AtCommit   bool   // the failure strikes at the commit of the call's transaction: FileDeleteUnused then hands back its result together with the error
 }
 
 // Adapter implements adapter.Adapter.
